@@ -29,9 +29,9 @@ rm -f test_outputs/*/actual_*
 # a demonstration is a Go test file (copied into <package-dir>) or a shell script (run from the worktree root; PKG and RUN ignored)
 if [[ "$DEMO" == *.sh ]]; then
   export BIN=/tmp/seed/confirm-$ID.bin
-  sh SEEDED/$(basename $DEMO) > /tmp/seed/confirm-$ID.with 2>&1; W=$?
+  bash SEEDED/$(basename $DEMO) > /tmp/seed/confirm-$ID.with 2>&1; W=$?
   git apply -R $SD/patch.diff
-  sh SEEDED/$(basename $DEMO) > /tmp/seed/confirm-$ID.without 2>&1; WO=$?
+  bash SEEDED/$(basename $DEMO) > /tmp/seed/confirm-$ID.without 2>&1; WO=$?
   rm -f $BIN
 else
 cp $DEMO $PKG/zz_seeded_demo_test.go
